@@ -811,8 +811,11 @@ func c07ToolRun(c *mc.Ctx) {
 	key := keys[c.Free(len(keys), "key")]
 	file := c07File(size, tr, c.Seed)
 	class := refib.Classify(file)
-	desc := fmt.Sprintf("size=%d,trailing=%s,key=%s", size, trName, key.name)
-	c.State(file, []byte(key.name))
+	// the -o path may already exist (an earlier, possibly longer, output): the result must
+	// still be exactly block || input
+	pre := c.Free(3, "pre-existing -o file: none/shorter/longer")
+	desc := fmt.Sprintf("size=%d,trailing=%s,key=%s,existing-output=%s", size, trName, key.name, []string{"none", "shorter", "longer"}[pre])
+	c.State(file, []byte(key.name), []byte{byte(pre)})
 	c.Outcome("gen: input " + class)
 
 	dir, err := os.MkdirTemp(os.TempDir(), "c07t-")
@@ -823,6 +826,16 @@ func c07ToolRun(c *mc.Ctx) {
 	defer os.RemoveAll(dir)
 	for name, content := range map[string][]byte{"in.wbn": file, "key.pem": []byte(key.keyPEM), "pub.pem": []byte(key.id.PubPEM)} {
 		if err := os.WriteFile(filepath.Join(dir, name), content, 0600); err != nil {
+			c.Cap("cannot write temp file: " + err.Error())
+			return
+		}
+	}
+	if pre > 0 {
+		junk := bytes.Repeat([]byte{0xEE}, 10)
+		if pre == 2 {
+			junk = bytes.Repeat([]byte{0xEE}, size+4096)
+		}
+		if err := os.WriteFile(filepath.Join(dir, "out.wbn"), junk, 0600); err != nil {
 			c.Cap("cannot write temp file: " + err.Error())
 			return
 		}
